@@ -151,6 +151,10 @@ def build_all(log):
         if rc != 0:
             res["harness_ok"] = False
             res["harness_msg"] = out[-3000:]
+        # the same harness with the race detector (needs cgo); optional
+        rc, out = sh(["go", "build", "-race", "-tags", "verif", "-o", os.path.join(BUILD, "twharness-race"), "."],
+                     cwd=os.path.join(VERIF, "harness"), env=dict(GOENV, CGO_ENABLED="1"))
+        res["race_ok"] = (rc == 0)
         res["build_s"] = round(time.time() - t0, 1)
         res["log"] = res["log"][-6000:]
         json.dump({"stamp": stamp, "res": res}, open(stamp_file, "w"))
@@ -239,7 +243,7 @@ def proof_status(prop, build):
 
 # ----------------------------------------------------------------------------- running cases
 
-def run_cases(lines, tag, timeout_ms=3000, jobs=16):
+def run_cases(lines, tag, timeout_ms=3000, jobs=16, binary="twharness", extra_env=None):
     """lines: list of case lines (id \\t kind \\t fields...). Returns list of dicts."""
     work = os.path.join(BUILD, "work")
     os.makedirs(work, exist_ok=True)
@@ -256,8 +260,10 @@ def run_cases(lines, tag, timeout_ms=3000, jobs=16):
         raise RuntimeError("twmodel expand failed: " + p.stderr[-2000:])
     lines = [l for l in open(cpath).read().split("\n") if l]
     env = dict(os.environ, VERIF_TMP=os.path.join(BUILD, "tmp"))
+    if extra_env:
+        env.update(extra_env)
     os.makedirs(env["VERIF_TMP"], exist_ok=True)
-    rc, out = sh([os.path.join(BUILD, "twharness"), "run", cpath, opath, "-j", str(jobs), "-timeout", str(timeout_ms)],
+    rc, out = sh([os.path.join(BUILD, binary), "run", cpath, opath, "-j", str(jobs), "-timeout", str(timeout_ms)],
                  env=env, timeout=7200)
     if rc != 0:
         raise RuntimeError("harness failed: " + out[-2000:])
@@ -367,6 +373,14 @@ def main():
     # ---- correspondence + oracle on the tier's cases
     lines, meta = spec.generate(rng, tier)
     results = run_cases(lines, prop, timeout_ms=spec.timeout_ms) if build["model_ok"] else []
+    if prop == "C15" and build.get("race_ok") and build["model_ok"]:
+        # the same concurrent runs under the race detector, at three GOMAXPROCS settings
+        for procs in (("1", "4", "16") if tier == "thorough" else ("4",)):
+            rr = run_cases(lines, prop + "-race" + procs, timeout_ms=spec.timeout_ms * 3, jobs=4, binary="twharness-race",
+                           extra_env={"GORACE": "halt_on_error=1 log_path=%s" % os.path.join(BUILD, "tmp", "race"), "GOMAXPROCS": procs})
+            for r in rr:
+                r["case"] = r["case"].replace("C15:", "C15:race%s:" % procs, 1)
+            results += rr
     stats = {"same": 0, "DIFF": 0, "unmodelled": 0, "ok": 0, "na": 0, "FAIL": 0}
     diffs, fails, known_hits = [], [], {}
     distinct = set()
